@@ -568,6 +568,9 @@ func (vc *VC) copyElems(fr *Frame, st *State, dbase, doff, sbase, soff, n Term, 
 		}
 		return
 	}
+	// patterns must not contain defined (ite/and) terms: name the operands
+	dbase, sbase = vc.q.Named("cp$db", dbase), vc.q.Named("cp$sb", sbase)
+	doff, soff, n = vc.q.Named("cp$do", doff), vc.q.Named("cp$so", soff), vc.q.Named("cp$n", n)
 	for _, cp := range vc.cellPaths(et) {
 		name, cell := vc.memKind(cp.ty)
 		m := vc.get(st, name, memSort(cell))
@@ -576,14 +579,14 @@ func (vc *VC) copyElems(fr *Frame, st *State, dbase, doff, sbase, soff, n Term, 
 		srcRow := vc.q.Define(name+"$srcrow", Select(m, Root(sbase)))
 		dstRow := vc.q.Define(name+"$dstrow", Select(m, Root(dbase)))
 		dp, sp := PathOf(dbase), PathOf(sbase)
-		di := cp.build(App(SPath, "PElem", dp, Add(doff, Term{"i", SInt})))
-		si := cp.build(App(SPath, "PElem", sp, Add(soff, Term{"i", SInt})))
+		di := cp.build(App(SPath, "PElem", dp, EIdx(doff, Term{"i", SInt})))
+		si := cp.build(App(SPath, "PElem", sp, EIdx(soff, Term{"i", SInt})))
 		vc.q.Raw(fmt.Sprintf("(assert (forall ((i Int)) (! (=> (and (<= 0 i) (< i %s)) (= (select %s %s) (select %s %s))) :pattern ((select %s %s)))))",
 			n.S, row.S, di.S, srcRow.S, si.S, row.S, di.S))
 		// frame inside the row: cells that are not a copied destination keep their value
-		pj := cp.build(App(SPath, "PElem", dp, Term{"j", SInt}))
-		vc.q.Raw(fmt.Sprintf("(assert (forall ((p Path)) (! (=> (not (exists ((j Int)) (and (<= %s j) (< j (+ %s %s)) (= p %s)))) (= (select %s p) (select %s p))) :pattern ((select %s p)))))",
-			doff.S, doff.S, n.S, pj.S, row.S, dstRow.S, row.S))
+		pj := cp.build(App(SPath, "PElem", dp, EIdx(doff, Term{"j", SInt})))
+		vc.q.Raw(fmt.Sprintf("(assert (forall ((p Path)) (! (=> (not (exists ((j Int)) (and (<= 0 j) (< j %s) (= p %s)))) (= (select %s p) (select %s p))) :pattern ((select %s p)))))",
+			n.S, pj.S, row.S, dstRow.S, row.S))
 		vc.set(st, name, vc.q.Define(name, Store(m, Root(dbase), row)))
 	}
 }
@@ -859,5 +862,6 @@ func (vc *VC) callAsserts(fr *Frame, st *State, c *ssa.CallCommon, args []Term, 
 		}
 		g := vc.specBool(env, ca.Clause)
 		vc.addObl(fr, st, "callsite", name+"/"+ca.Clause.Label, g, ca.Clause, pos)
+		vc.callAssertHit[ca] = true
 	}
 }
